@@ -274,6 +274,8 @@ for _k in ('C01', 'C02', 'C09', 'C12', 'C17', 'C08', 'C10'):
     TIES[_k] = TIES.get(_k, []) + ['TieStore']
 for _k in ('C12', 'C13', 'C17', 'C08'):
     TIES[_k] = TIES.get(_k, []) + ['TieKeys']
+for _k in ('C06', 'C09', 'C19'):
+    TIES[_k] = TIES.get(_k, []) + ['TieSettleBasic']
 for _k, _v in TIES.items():
     PROPS[_k]["ties"] = _v
 
